@@ -482,4 +482,39 @@ func runC27(c *Ctx) {
 		c.R.Check("T-payout", name+"|vote-total division present", nq >= 1, c.pos(f.Pos()), fmt.Sprintf("%d division(s) by TotalVotesInRound", nq))
 	}
 	c.R.FloorCheck("U-pair credits to the round reward map", nCredits, 12)
+	// a return that declares the whole pool as paid out carries a map without other credits
+	c.R.Rule("T-whole", "a distribute function returns the whole reward as the paid amount (and the pool as its only destroy-address entry) only on a path on which nothing else was credited to the round reward map before")
+	nW := 0
+	for _, name := range []string{"distributeWithNormalArbitratorsV0", "distributeWithNormalArbitratorsV1", "distributeWithNormalArbitratorsV2", "distributeWithNormalArbitratorsV3"} {
+		f := c.fn("dpos/state", "Arbiters", name)
+		if f == nil {
+			continue
+		}
+		var credits []ssa.Instruction
+		for _, b := range f.Blocks {
+			for _, in := range b.Instrs {
+				if u, ok := in.(*ssa.MapUpdate); ok && ssau.TypeName(u.Value.Type()) == "Fixed64" {
+					// a credit other than "destroy address := whole reward"
+					if paramNamed(u.Value, "reward") {
+						continue
+					}
+					credits = append(credits, u)
+				}
+			}
+		}
+		for _, ret := range ssau.Returns(f) {
+			if len(ret.Results) < 2 || !paramNamed(ssau.ResolveSpill(ret.Results[1]), "reward") {
+				continue
+			}
+			nW++
+			bad := ""
+			for _, u := range credits {
+				if ssau.ReachAfter(f, u, nil).Instr(ret) {
+					bad = c.posOf(u)
+				}
+			}
+			c.R.Check("T-whole", name+"|whole-pool return carries no other credit", bad == "", c.posOf(ret), "the credit at "+bad+" can precede the return that reports the whole pool as paid: the map then sums to more than the pool")
+		}
+	}
+	c.R.FloorCheck("T-whole whole-pool returns", nW, 1)
 }
